@@ -90,7 +90,7 @@ def getRequest : List UInt8 :=
 
 def obsOf (s : String) : Option Obs :=
   if s = "valid" then some .usable
-  else if s = "invalid" ∨ s = "truncated" ∨ s = "closeearly" ∨ s = "refused" then some .unusable
+  else if s = "invalid" ∨ s = "truncated" ∨ s = "closeearly" ∨ s = "refused" ∨ s = "absent" then some .unusable
   else none
 
 def outcomeStr (o : Outcome) (reads : Bool) : String :=
